@@ -34,7 +34,7 @@ class PathLimit(Exception):
 
 
 class St:
-    __slots__ = ('heaps', 'alloc', 'pc', 'ex', 'gen')
+    __slots__ = ('heaps', 'alloc', 'pc', 'ex', 'gen', 'psums')
 
     def __init__(self, ex):
         self.ex = ex
@@ -42,6 +42,7 @@ class St:
         self.alloc = None
         self.pc = []
         self.gen = 0
+        self.psums = {}
 
     def fork(self):
         s = St(self.ex)
@@ -49,6 +50,7 @@ class St:
         s.alloc = self.alloc
         s.pc = list(self.pc)
         s.gen = self.gen
+        s.psums = {k: list(v) for k, v in self.psums.items()}
         return s
 
     def assume(self, t):
@@ -113,6 +115,7 @@ class Executor:
         self.arith_overflow = self.opts.get('overflow', False)
         self.spec = SpecEval(self)
         self._wcache = {}
+        self._mcache = {}
         self.reset()
 
     def reset(self):
@@ -691,14 +694,21 @@ class Executor:
                     self.oblige(st, frame, 'invariant', 'loop%d:%s:entry' % (L['ord'], lbl), t, cl.props, cl.line)
         # ---- havoc
         W = self.loop_writes(fn, L)
+        M = self.loop_mods(fn, L)
         st = st.fork()
         pre_heaps = dict(st.heaps)
-        if any(n.startswith('?') for n in W):
+        loop_entry_alloc = st.alloc
+        if any(n.startswith('?') for n in W) or any(n.startswith('?') for n in M):
             self.havoc_everything(st, '%s.loop%d' % (fn.short, L['ord']))
         for name in sorted(W):
             if name.startswith('?'):
                 continue
-            self.havoc_heap(st, name, 'loop%d' % L['ord'], self.entry_alloc, self.modset)
+            if name in M:
+                # objects that existed before the loop may be modified: only the function frame protects them
+                self.havoc_heap(st, name, 'loop%d' % L['ord'], self.entry_alloc, self.modset)
+            else:
+                # the loop only allocates in this heap: everything allocated before the loop is unchanged
+                self.havoc_heap(st, name, 'loop%d' % L['ord'], loop_entry_alloc, [])
         na = self.m.fresh('alloc_l%d' % L['ord'], self.m.Int)
         st.assume(na >= st.alloc)
         st.alloc = na
@@ -980,6 +990,196 @@ class Executor:
                     f2 = self.prog.funcs.get(name)
                     if f2 is not None and not f2.external:
                         W |= self.fn_writes(f2, seen)
+
+    # ---- which heaps may be MODIFIED at objects that existed before the scope (loop / function) began
+    FRESH_CALLS = ('math/big.NewInt', 'math/big.NewRat')
+
+    def root_fresh(self, fn, op, scope, depth=0):
+        """is the object addressed through operand `op` certainly allocated inside `scope` (set of blocks)?"""
+        if op['k'] != 'reg' or depth > 8:
+            return False
+        d = fn.defs().get(op['n'])
+        if d is None:
+            return False
+        b, i, ins = d
+        o = ins['op']
+        if o in ('Alloc', 'MakeMap', 'MakeSlice'):
+            return b in scope
+        if o == 'Call':
+            a0 = ins['args'][0]
+            if ins.get('callee') in self.FRESH_CALLS:
+                return b in scope
+            if a0['k'] == 'builtin' and a0['n'] == 'append':
+                return b in scope
+            if ins.get('callee', '').startswith('(*math/big.') and len(ins['args']) > 1:
+                # z.Op(...) returns z
+                return self.root_fresh(fn, ins['args'][1], scope, depth + 1)
+            return False
+        if o in ('FieldAddr', 'IndexAddr', 'ChangeType', 'Convert', 'Slice'):
+            return self.root_fresh(fn, ins['args'][0], scope, depth + 1)
+        if o == 'Phi':
+            return all(self.root_fresh(fn, a, scope, depth + 1) for a in ins['args'] if not (a['k'] == 'reg' and a['n'] == op['n']))
+        return False
+
+    def static_mod_names(self, f2, c):
+        """heap names of a contract's modifies clause, computed from the parameter types (no state needed)"""
+        out = set()
+        ptypes = {p['n']: p['t'] for p in f2.params}
+        m = self.m
+
+        def static_type(ast):
+            if ast[0] == 'id' and ast[1] in ptypes:
+                return ptypes[ast[1]]
+            if ast[0] == 'sel':
+                bt = static_type(ast[1])
+                if bt is None:
+                    return None
+                T = m.elem(bt) if m.kind(bt) == 'pointer' else bt
+                path = self.spec.find_field(T, ast[2])
+                if path is None:
+                    return None
+                cur = T
+                for comp in path:
+                    cur = m.types[m.under(cur)]['fields'][m.field_index(cur, comp)]['t']
+                return cur
+            if ast[0] == 'idx':
+                bt = static_type(ast[1])
+                if bt is None:
+                    return None
+                k = m.kind(bt)
+                if k in ('slice', 'map'):
+                    return m.types[m.under(bt)]['elem']
+            return None
+        for cl in c.modifies:
+            ast = cl.ast
+            try:
+                if ast[0] == 'call' and ast[1][0] == 'id':
+                    f = ast[1][1]
+                    if f == 'heap':
+                        t = ast[2][0][1] if ast[2][0][0] == 'id' else None
+                        if t == 'bigint':
+                            out.add('H|bigint||Int')
+                        elif t == 'bigrat':
+                            out.add('H|bigrat||Real')
+                        else:
+                            return None
+                    elif f in ('val', 'rat'):
+                        out.add('H|bigint||Int' if f == 'val' else 'H|bigrat||Real')
+                        bt = static_type(ast[2][0])
+                        if bt is None:
+                            return None
+                        out |= self.pointee_heaps(m.elem(bt), True)
+                    elif f == 'elems':
+                        bt = static_type(ast[2][0])
+                        if bt is None:
+                            return None
+                        E = m.elem(bt)
+                        out |= {self.aname(E, p, s) for (p, s, tk) in m.layout(E)}
+                    elif f == 'entries':
+                        bt = static_type(ast[2][0])
+                        if bt is None:
+                            return None
+                        out |= self.map_heaps(bt)
+                    elif f in ('allentries', 'allof', 'allelems'):
+                        tk = self.spec.type_key(ast[2][0])
+                        if f == 'allentries':
+                            out |= self.map_heaps(tk)
+                        elif f == 'allof':
+                            out |= {self.hname(tk, p, s) for (p, s, t2) in m.layout(tk)}
+                        else:
+                            out |= {self.aname(tk, p, s) for (p, s, t2) in m.layout(tk)}
+                    else:
+                        return None
+                elif ast[0] == 'sel':
+                    bt = static_type(ast[1])
+                    ft = static_type(ast)
+                    if bt is None or ft is None or m.kind(bt) != 'pointer':
+                        return None
+                    T = m.elem(bt)
+                    path = self.spec.find_field(T, ast[2])
+                    prefix = '.'.join(path) + '.'
+                    out |= {self.hname(T, self.leafpath(prefix, p), s) for (p, s, tk) in m.layout(ft)}
+                elif ast[0] == 'un' and ast[1] == '*':
+                    bt = static_type(ast[2])
+                    if bt is None:
+                        return None
+                    out |= self.pointee_heaps(m.elem(bt), True)
+                else:
+                    return None
+            except Exception:
+                return None
+        return out
+
+    def fn_mods(self, fn, seen=None):
+        if fn.name in self._mcache:
+            return self._mcache[fn.name]
+        seen = seen or set()
+        if fn.name in seen:
+            return set()
+        seen = seen | {fn.name}
+        M = set()
+        scope = set(range(len(fn.blocks)))
+        for blk in fn.blocks:
+            for ins in blk['instrs']:
+                self.instr_mods(fn, ins, M, seen, scope)
+        if len(seen) == 1:
+            self._mcache[fn.name] = M
+        return M
+
+    def loop_mods(self, fn, L):
+        M = set()
+        for b in L['body']:
+            for ins in fn.blocks[b]['instrs']:
+                self.instr_mods(fn, ins, M, set(), L['body'])
+        return M
+
+    def callee_mods(self, f2, seen):
+        c = self.contract_of(f2)
+        if c is not None and 'inline' not in c.flags:
+            if c.modifies is not None:
+                names = self.static_mod_names(f2, c)
+                if names is not None:
+                    return names
+            return set(self.fn_writes(f2))
+        return self.fn_mods(f2, seen)
+
+    def instr_mods(self, fn, ins, M, seen, scope):
+        op = ins['op']
+        if op == 'Store':
+            if not self.root_fresh(fn, ins['args'][0], scope):
+                M |= self.addr_heaps(fn, ins['args'][0])
+        elif op == 'MapUpdate':
+            if not self.root_fresh(fn, ins['args'][0], scope):
+                M |= self.map_heaps(ins['args'][0]['t'])
+        elif op == 'Call':
+            callee = ins.get('callee')
+            a0 = ins['args'][0]
+            if ins.get('method'):
+                for f2 in self.dispatch_targets(a0['t'], ins['method']):
+                    M |= self.callee_mods(f2, seen)
+            elif a0['k'] == 'builtin':
+                if a0['n'] == 'delete':
+                    if not self.root_fresh(fn, ins['args'][1], scope):
+                        M |= self.map_heaps(ins['args'][1]['t'])
+                elif a0['n'] == 'copy':
+                    E = self.m.elem(ins['args'][1]['t'])
+                    M |= {self.aname(E, p, s) for (p, s, tk) in self.m.layout(E)}
+            elif callee and a0['k'] != 'reg' and callee in self.prog.funcs and not self.prog.funcs[callee].external:
+                M |= self.callee_mods(self.prog.funcs[callee], seen)
+            elif callee and a0['k'] != 'reg':
+                w = lib.static_writes(self, callee, ins, fn)
+                if w and not (callee in self.FRESH_CALLS):
+                    if callee.startswith('(*math/big.') and len(ins['args']) > 1 and self.root_fresh(fn, ins['args'][1], scope):
+                        pass
+                    elif callee.startswith('strings.') or callee.startswith('(*regexp.') or 'maps.Keys' in callee:
+                        pass  # these only allocate their result
+                    else:
+                        M |= w
+            else:
+                for name in sorted(self.address_taken().get(a0['t'], ())):
+                    f2 = self.prog.funcs.get(name)
+                    if f2 is not None and not f2.external:
+                        M |= self.callee_mods(f2, seen)
 
     def map_heaps(self, mt):
         V = self.m.types[self.m.under(mt)]['elem']
@@ -1573,6 +1773,9 @@ class Executor:
                 return cont(st, frame, res)
             args = [self.operand(st, frame, a) for a in args_ops]
             callee = ins.get('callee')
+            if callee is not None and a0['k'] == 'reg':
+                # go/ssa reports the function of a MakeClosure value as static callee: the bindings matter
+                callee = None
             if callee is None:
                 fv = self.operand(st, frame, a0)
                 code = self.resolve_code(st, fv)
